@@ -163,7 +163,7 @@ class LogQueue:
         return self.get(block=False)
 
 
-def real_run(sc, victim=-1, kill_before=-1, deadline=25.0):
+def real_run(sc, victim=-1, kill_before=-1, deadline=25.0, prior=0):
     import importlib
     import multiprocessing
     importlib.reload(mps)
@@ -177,6 +177,16 @@ def real_run(sc, victim=-1, kill_before=-1, deadline=25.0):
 
     def body():
         try:
+            # earlier, undisturbed calls on the SAME MultiprocessingSolver object (history quantifier)
+            LogQueue.victim = -1
+            for k in range(prior):
+                if (sc["mode"] == "solve") == (k % 2 == 0):
+                    for _ in m.solve():
+                        pass
+                else:
+                    m.minimize(sc["var"])
+            LogQueue.victim = victim
+            LogQueue.log = []
             if sc["mode"] == "solve":
                 for x in m.solve():
                     out["yields"].append([int(v) for v in x])
@@ -222,7 +232,8 @@ def main():
                 fh.write(json.dumps(r, separators=(",", ":")) + "\n")
         elif job["kind"] == "fault":
             for f in job["faults"]:
-                r = real_run(f["sc"], victim=f["victim"], kill_before=f["kill_before"], deadline=f.get("deadline", 20.0))
+                r = real_run(f["sc"], victim=f["victim"], kill_before=f["kill_before"], deadline=f.get("deadline", 20.0),
+                             prior=f.get("prior", 0))
                 r.update({"id": f["id"], "victim": f["victim"], "kill_before": f["kill_before"]})
                 fh.write(json.dumps(r, separators=(",", ":")) + "\n")
         fh.flush()
